@@ -860,8 +860,14 @@ class ExcelCompiler:
             if cell_range.address.is_unbounded_range:
                 bounded_addr = str(self.eval(cell_range))
                 bounded_addr_cell = self.cell_map.get(bounded_addr)
-                if self.cycles or bounded_addr_cell.value is None:
-                    self._evaluate_range(bounded_addr)
+                try:
+                    if self.cycles or bounded_addr_cell.value is None:
+                        self._evaluate_range(bounded_addr)
+                except BaseException:
+                    if isinstance(cell_range, _CycleCell):
+                        # the reference is no longer being calculated
+                        cell_range.wip = False
+                    raise
                 data = bounded_addr_cell.value
 
             elif cell_range.formula is None:
